@@ -156,7 +156,19 @@ pub fn cache_world(rng: &mut Rng, thorough: bool, adversarial: bool) -> (Spec, C
                     }
                     let name = rng.pick(&free).to_string();
                     let t = p.tag();
-                    p.send(vec![FrontMsg::P { name, sql: format!("SELECT '{}', $1, sim_parse_error()", t), types: vec![] }, FrontMsg::S]);
+                    let mut msgs = vec![FrontMsg::P { name: name.clone(), sql: format!("SELECT '{}', $1, sim_parse_error()", t), types: vec![] }];
+                    if rng.chance(0.5) {
+                        // a second Parse in the same batch: the server skips it (error state until
+                        // Sync), so neither this client nor anybody sharing its text has it prepared
+                        let free2: Vec<&str> = free.iter().cloned().filter(|n| *n != name).collect();
+                        if let Some(n2) = free2.first() {
+                            let st: &str = *rng.pick(&shared_texts);
+                            let sql2 = if share_text { stmt_sql(&mut p, Some(st), 1, "") } else { stmt_sql(&mut p, None, 1, "") };
+                            msgs.push(FrontMsg::P { name: n2.to_string(), sql: sql2, types: vec![] });
+                        }
+                    }
+                    msgs.push(FrontMsg::S);
+                    p.send(msgs);
                 }
                 _ => {
                     // unnamed statement or a simple query in between
